@@ -96,9 +96,8 @@ def analyse(eng, name, args, affs, l, opbits):
             bad.append(('unknown', 'write %s' % nm, None, None, None))
     # memory reads of the reference
     def covered(ad, nb, mems):
-        """an access of the reference is covered when some ExprMem of the sets provably intersects it, or - the lifter
-        and the reference may model an address differently (16-bit stack pointer, bit-string slicing), which is C04's
-        business - at least is based on the same registers"""
+        """an access of the reference is covered when some ExprMem of the sets intersects it in every state (over-approximation
+        of the location is accepted, a cell that never meets the accessed bytes is not)"""
         from vf.checks import c16
         fv = set(str(x) for x in c16.free_vars(ad))
         for mm in mems:
@@ -106,17 +105,28 @@ def analyse(eng, name, args, affs, l, opbits):
             cm.ids = c.ids
             cm.mem = c.mem
             a = SPEC.zx(ir2smt.tr(mm.arg, cm), 32)
-            fa = set(str(x) for x in c16.free_vars(a))
-            if (fv & fa) or (not fv and not fa):
-                return True
             n2 = mm.size // 8
-            if eng.prove(z3.Implies(pre, z3.Or(z3.ULT(ad - a, n2), z3.ULT(a - ad, nb)))):
+            meets = z3.Or(z3.ULT(ad - a, n2), z3.ULT(a - ad, nb))
+            if eng.prove(z3.Implies(pre, meets)):
                 return True
+            apart.append(z3.Not(meets))
         return False
+    apart = []      # per uncovered access: for every cell of the sets, "does not meet the access" (the witness must satisfy all of them)
     stores = []
     # separate the reference's loads from its stores: Spec.store appends (addr, n) right before updating S.mem
     loads = list(cs.mem_reads)
+    store_addrs = [ad_ for ad_, _ in S.stores]
     for ad, nb in loads:
+        is_store = any(ad is ad_ for ad_ in store_addrs)
+        if is_store:
+            # a location the processor modifies must meet a cell of the WRITE set
+            del apart[:]
+            if covered(ad, nb, wmem):
+                continue
+            st, m = eng.find(z3.And(pre, *apart))
+            bad.append(('omitted-mem-write', 'the processor writes a %d-byte memory operand that no ExprMem of the write set meets' % nb, m if st == 'sat' else None, None, 'mem'))
+            break
+        del apart[:]
         if covered(ad, nb, rmem) or covered(ad, nb, wmem):
             continue
         mem2 = cs.mem0
@@ -127,7 +137,7 @@ def analyse(eng, name, args, affs, l, opbits):
             t2 = z3.substitute(t, (cs.mem0, mem2))
             if t2.eq(t):
                 continue
-            st, m = eng.find(z3.And(pre, d, z3.substitute(d, (cs.mem0, mem2)), t != t2))
+            st, m = eng.find(z3.And(pre, d, z3.substitute(d, (cs.mem0, mem2)), t != t2, *apart))
             if st == 'sat':
                 bad.append(('omitted-mem', 'a %d-byte memory operand influences %s (or is written) but no ExprMem at that address is in the read/write sets' % (nb, lab), m, None, lab))
                 hit = True
@@ -445,17 +455,24 @@ elif kind == 'omitted-write' and nm not in names_w:
 if kind in ('omitted-read', 'omitted-write') and not bad and ran == 0 and nm not in (names_r if kind == 'omitted-read' else names_w):
     bad = by_reference()
     print('the CPU cannot run this form in the test window; reference semantics says:', 'dependency is real' if bad else 'no dependency')
-if kind == 'omitted-mem':
+if kind in ('omitted-mem', 'omitted-mem-write'):
     # same criterion as the check: a memory operand the reference needs, and no ExprMem of the sets based on the same registers
     from vf import ir2smt
     from vf.x86spec import sem as SPEC
     from vf.checks import c16
     import miasmx.arch.ia32_arch as A
     c = ir2smt.Ctx(strict=False, flat=True); S = SPEC.Spec(c, z3.BitVecVal(i.l, 32)); SPEC.sem(i.m.name, S, i.arg_expr, {'opsize': 16 if i.opmode == A.u16 else 32, 'l': i.l})
-    refs = [set(str(x) for x in c16.free_vars(ad)) for ad, nb in c.mem_reads]
-    mems = [set(str(x) for x in c16.free_vars(SPEC.zx(ir2smt.tr(m_.arg, c), 32))) for m_ in (R | W) if isinstance(m_, X.ExprMem)]
-    for fv in refs:
-        if not any((fv & fa) or (not fv and not fa) for fa in mems): bad = True; print('the reference accesses memory through', sorted(fv), 'but no ExprMem of the sets is based on it')
+    sv = z3.Solver(); sv.set('timeout', 60000)
+    for a_ in S.assume: sv.add(a_)
+    stores = [ad_ for ad_, _ in S.stores]
+    for ad, nb in c.mem_reads:
+        pool = [m_ for m_ in (W if any(ad is x_ for x_ in stores) and D['what'].startswith('omitted-mem-write') else (R | W)) if isinstance(m_, X.ExprMem)]
+        cov = False
+        for m_ in pool:
+            am = SPEC.zx(ir2smt.tr(m_.arg, c), 32)
+            sv.push(); sv.add(z3.Not(z3.Or(z3.ULT(ad - am, m_.size // 8), z3.ULT(am - ad, nb)))); r_ = sv.check(); sv.pop()
+            if r_ == z3.unsat: cov = True; break
+        if not cov: bad = True; print('the reference accesses %%d bytes at %%s; no ExprMem of the set meets them in every state' %% (nb, z3.simplify(ad)))
 print('C08 replay:', 'VIOLATED' if bad else 'holds')
 sys.exit(1 if bad else 0)
 '''
